@@ -162,6 +162,11 @@ fn gen_src(c: &mut Choices<'_>) -> (String, Vec<&'static str>) {
             src.push_str(&format!("{}\n", blanks(c)));
         }
     }
+    if c.chance(1, 8) {
+        // an attribute diagnostic in the same run (deprecated spelling / unknown rustfmt attribute)
+        labels.insert("attribute-diagnostic");
+        src.push_str(*c.pick(&["#[rustfmt_skip]\nfn  deprecated_spelling ( ) { }\n", "#[rustfmt::bogus]\nfn unknown_attribute() {}\n"]));
+    }
     (src, labels.into_iter().collect())
 }
 
@@ -277,7 +282,7 @@ impl Property for C07 {
         }
     }
     fn rule(&self) -> &'static str {
-        "corpus grid cells and generated sources (long strings, long/multi-line comments with trailing blanks, unbreakable calls and chains, multi-line and raw strings, macro bodies left verbatim, macro definitions, skip-marked items / statements / arms / fields containing long lines and trailing blanks) x max_width 20..200 x tab_spaces 1..8 x hard_tabs x the four error_on_line_overflow / error_on_unformatted combinations x up to 3 layout options; optionally file_lines over an already formatted text; oracle: an independent per-line recomputation over the emitted text (character count with tabs as tab_spaces, last character blank, comment-line and string-literal classification from rustc_lexer tokens, skipped code from an independent parse of the emitted text: nodes carrying a skip attribute, or macro invocations for ranges rustfmt recorded as left verbatim) gives the exact set of (line, kind) that must be reported; compared in both directions with the report entries read through the hook, including file name, found/maximum widths; when a trailing blank must be reported the binary must exit 1 and name the line; non-trivial = at least one line of the emitted text is too wide or ends in a blank; distinct by case content"
+        "corpus grid cells and generated sources (long strings, long/multi-line comments with trailing blanks, unbreakable calls and chains, multi-line and raw strings, macro bodies left verbatim, macro definitions, skip-marked items / statements / arms / fields containing long lines and trailing blanks) x max_width 20..200 x tab_spaces 1..8 x hard_tabs x the four error_on_line_overflow / error_on_unformatted combinations x up to 3 layout options; optionally file_lines over an already formatted text; oracle: an independent per-line recomputation over the emitted text (character count with tabs as tab_spaces, last character blank, comment-line and string-literal classification from rustc_lexer tokens, skipped code from an independent parse of the emitted text: nodes carrying a skip attribute, or macro invocations for ranges rustfmt recorded as left verbatim) gives the exact set of (line, kind) that must be reported; compared in both directions with the report entries read through the hook, including file name, found/maximum widths; every reported line makes the run count as failed (also next to attribute diagnostics); when a trailing blank must be reported the binary must exit 1 and name the line; non-trivial = at least one line of the emitted text is too wide or ends in a blank; distinct by case content"
     }
     fn assumptions(&self) -> Vec<&'static str> {
         vec![
@@ -589,6 +594,10 @@ impl Property for C07 {
         let any_trailing_reported = reported.iter().any(|(_, k)| *k == Kind::Trailing);
         if any_trailing_reported && !(out.has_operational_errors && out.has_unformatted_code_errors) {
             return Outcome::fail("trailing-blank-flags", "a trailing blank is reported but the summary flags are not set".to_string()).nontrivial(true);
+        }
+        // any reported line makes the run fail (exit status 1 of the binary = operational error)
+        if !reported.is_empty() && !out.has_operational_errors {
+            return Outcome::fail("reported-line-without-failure-flag", format!("{} line(s) are reported but the run does not count as failed (other diagnostics in the run: {:?})", reported.len(), out.errors.iter().map(|e| e.kind.clone()).collect::<BTreeSet<_>>())).nontrivial(true);
         }
         if any_trailing_reported && case["binary"].as_bool() == Some(true) && ranges.is_none() {
             let cfg: Vec<String> = opts.iter().map(|(k, v)| format!("{k}={v}")).collect();
